@@ -46,8 +46,9 @@ namespace {
         {
             Val v;
             switch ( op ) {
-            case S_PUSH_BACK: if ( uid & 1 ) return d.push_back( Val( uid, 0 )) ? 1 : 0; else { Val t( uid, 0 ); return d.push_back( std::move( t )) ? 1 : 0; }
-            case S_PUSH_FRONT: if ( uid & 1 ) return d.push_front( Val( uid, 0 )) ? 1 : 0; else { Val t( uid, 0 ); return d.push_front( std::move( t )) ? 1 : 0; }
+            // copy overload (lvalue) and move overload
+            case S_PUSH_BACK: { Val t( uid, 0 ); return (( uid & 1 ) ? d.push_back( t ) : d.push_back( std::move( t ))) ? 1 : 0; }
+            case S_PUSH_FRONT: { Val t( uid, 0 ); return (( uid & 1 ) ? d.push_front( t ) : d.push_front( std::move( t ))) ? 1 : 0; }
             case S_POP_FRONT: if ( !d.pop_front( v )) return -1; return v.good() ? v.uid : bad_uid( v );
             case S_POP_BACK: if ( !d.pop_back( v )) return -1; return v.good() ? v.uid : bad_uid( v );
             case S_EMPTY: return d.empty() ? 1 : 0;
@@ -71,8 +72,8 @@ namespace {
         {
             Val v;
             switch ( op ) {
-            case S_PUSH_BACK: return d.push_back( Val( uid, 0 )) ? 1 : 0;
-            case S_PUSH_FRONT: return d.push_front( Val( uid, 0 )) ? 1 : 0;
+            case S_PUSH_BACK: { Val t( uid, 0 ); return (( uid & 1 ) ? d.push_back( t ) : d.push_back( std::move( t ))) ? 1 : 0; }
+            case S_PUSH_FRONT: { Val t( uid, 0 ); return (( uid & 1 ) ? d.push_front( t ) : d.push_front( std::move( t ))) ? 1 : 0; }
             case S_POP_FRONT: if ( !d.pop_front( v )) return -1; return v.good() ? v.uid : bad_uid( v );
             case S_POP_BACK: if ( !d.pop_back( v )) return -1; return v.good() ? v.uid : bad_uid( v );
             case S_EMPTY: return d.empty() ? 1 : 0;
@@ -117,7 +118,7 @@ namespace {
         int64_t exec( int op, int64_t uid, int64_t prio, int64_t& r2 )
         {
             switch ( op ) {
-            case P_PUSH: return q.push( Val( uid, prio )) ? 1 : 0;
+            case P_PUSH: { Val t( uid, prio ); return (( uid & 1 ) ? q.push( t ) : q.push( std::move( t ))) ? 1 : 0; }   // copy and move overloads
             case P_POP: { Val v; if ( !q.pop( v )) return -1; r2 = v.prio; return v.good() ? v.uid : bad_uid( v ); }
             case P_EMPTY: return q.empty() ? 1 : 0;
             case P_CLEAR: q.clear(); return 0;
@@ -164,7 +165,7 @@ namespace {
         int64_t exec( int op, int64_t uid, int64_t prio, int64_t& r2 )
         {
             switch ( op ) {
-            case P_PUSH: return q.push( Val( uid, prio )) ? 1 : 0;
+            case P_PUSH: { Val t( uid, prio ); return (( uid & 1 ) ? q.push( t ) : q.push( std::move( t ))) ? 1 : 0; }   // copy and move overloads
             case P_POP: { Val v; if ( !q.pop( v )) return -1; r2 = v.prio; return v.good() ? v.uid : bad_uid( v ); }
             case P_EMPTY: return q.empty() ? 1 : 0;
             case P_SIZE: return int64_t( q.size());
